@@ -135,6 +135,20 @@ pub(crate) fn build_on(env: &Env, w: &Worlds, scn: Scn, old: Option<Sim>) -> (Si
 }
 
 pub(crate) fn build_with(env: &Env, w: &Worlds, p: &Params, scn: Scn, old: Option<Sim>) -> (Sim, usize) {
+    match try_build_with(env, w, p, scn, old) {
+        Ok(r) => r,
+        Err(sim) => {
+            for l in &sim.trace {
+                eprintln!("  {}", l);
+            }
+            panic!("scenario {:?} could not be reached (machinery)", scn);
+        }
+    }
+}
+
+/// `Err(sim)` if the world never produces the scenario's pending answer (e.g. no check points
+/// are needed on a very short chain).
+pub(crate) fn try_build_with(env: &Env, w: &Worlds, p: &Params, scn: Scn, old: Option<Sim>) -> Result<(Sim, usize), Sim> {
     let mut world = World::new(vec![w.main.clone(), w.fork.clone(), w.unmined.clone()], 4);
     if scn == Scn::UnminedProof {
         world.add_peer(1, 2, p.h1);
@@ -171,7 +185,7 @@ pub(crate) fn build_with(env: &Env, w: &Worlds, p: &Params, scn: Scn, old: Optio
         );
     }
     let ok = match scn {
-        Scn::NoPeer => return (sim, 0),
+        Scn::NoPeer => return Ok((sim, 0)),
         Scn::Connected => {
             sim.connect(1);
             true
@@ -183,7 +197,7 @@ pub(crate) fn build_with(env: &Env, w: &Worlds, p: &Params, scn: Scn, old: Optio
         Scn::Ready => {
             assert!(scen::prove_peer(&mut sim, 1));
             sim.queue.clear();
-            return (sim, 0);
+            return Ok((sim, 0));
         }
         Scn::NewProofSampled | Scn::NewProofShort | Scn::ReorgProof => {
             assert!(scen::prove_peer(&mut sim, 1));
@@ -216,7 +230,7 @@ pub(crate) fn build_with(env: &Env, w: &Worlds, p: &Params, scn: Scn, old: Optio
             sim.cm().tick_lc(1);
             sim.pump_out();
             let n = sim.queue.len();
-            return (sim, n);
+            return Ok((sim, n));
         }
         Scn::CheckPoints => {
             sim.connect(1);
@@ -232,13 +246,9 @@ pub(crate) fn build_with(env: &Env, w: &Worlds, p: &Params, scn: Scn, old: Optio
         }
     };
     if !ok {
-        for l in &sim.trace {
-            eprintln!("  {}", l);
-        }
-        eprintln!("queue: {:?}", sim.queue.iter().map(|m| m.note.clone()).collect::<Vec<_>>());
+        return Err(sim);
     }
-    assert!(ok, "scenario {:?} could not be reached (machinery)", scn);
-    (sim, 1)
+    Ok((sim, 1))
 }
 
 struct Sweep<'a> {
